@@ -63,7 +63,8 @@ def gen_c13(tier, rng):
             ops = []
             for n in [0, 1, 2, 3, 4, 63, 64, 65, 1499, 65529] + [rng.randrange(0, 3000) for _ in range(10 if tier == "quick" else 100)]:
                 if k == "analog" and n == 65529:
-                    n = 65519
+                    for n2 in (65519, 65520, 65525):        # header 16 + data: the payload itself crosses 65535 bytes at 65520
+                        ops.append("bld %s %s %s" % (k, prior, proto.hexs(proto.rand_bytes(rng, n2))))
                 ops.append("bld %s %s %s" % (k, prior, proto.hexs(proto.rand_bytes(rng, n))))
             cases.append(Case("c13", ops, True, (k, "lengths"), meta={"kind": k}))
     for prior in prior_objects(rng, "cm"):
